@@ -195,8 +195,8 @@ def show_mod(m):
     if tag == 'auto':
         return 'autokwoargs(exceptions=[%s])' % nm(p)
     ret, anns = p
-    return 'annotate(%s%s)' % ('' if ret is None else '%d, ' % ret,
-                               ', '.join('%s=%d' % (NAMES[k], v) for k, v in anns))
+    return 'annotate(%s)' % ', '.join(([] if ret is None else ['%d' % ret])
+                                       + ['%s=%d' % (NAMES[k], v) for k, v in anns])
 
 
 def apply_modifier(obj, m):
@@ -334,8 +334,8 @@ def order_sets(ctx, fi, pool):
     sets = [(i,) for i in range(n)] + list(itertools.combinations(range(n), 2))
     triples = list(itertools.combinations(range(n), 3))
     if ctx.quick:
-        sets = sets if len(sets) <= 160 else [(i,) for i in range(n)] + rng.sample(sets[n:], 160 - n)
-        triples = rng.sample(triples, min(len(triples), 50))
+        sets = sets if len(sets) <= 130 else [(i,) for i in range(n)] + rng.sample(sets[n:], 130 - n)
+        triples = rng.sample(triples, min(len(triples), 30))
     else:
         triples = rng.sample(triples, min(len(triples), 400))
     sets += triples
@@ -583,10 +583,13 @@ def _fresh(kind, ver, level, connected):
         i = A()
         if connected and kind in IVAR:
             i.target = _target
+        guard = specifiers.as_forged.currently_computing
+        saved = set(guard)              # whatever the history under test left behind stays visible
         obj = i.m if level == 'inst' else A.m
         _FRESH[key] = (sig_str(obj), isig_str(obj))
         del obj, i
-        specifiers.as_forged.currently_computing.clear()
+        guard.clear()
+        guard.update(saved)
     return _FRESH[key]
 
 
@@ -690,7 +693,7 @@ def run_history(kind, hist):
                 got, gver = sig_info(obj)
                 check_sig(s, got, step)
                 check_isig(s, obj, got, step)
-                if name.startswith('ret') and held[s]:
+                if name.startswith('ret') and held[s] and held[s][-1] is not obj:
                     # the same question asked of an object obtained earlier and kept
                     kept = held[s][-1]
                     kgot, _ = sig_info(kept)
@@ -769,10 +772,10 @@ def histories(ctx):
                         for late in ((), (s_,), (3 + s_,)):
                             out.append((kind, (early,) + conn + late + (9 + s_,)))
                             out.append((kind, (s_, early) + conn + late + (9 + s_,)))
-        extra = {'pok': 300, 'func': 200, 'fwrap': 100, 'swrap': 100, 'wwrap': 100,
-                 'iw': 250, 'is': 250, 'if': 250}[kind]
+        extra = {'pok': 100, 'func': 100, 'fwrap': 50, 'swrap': 50, 'wwrap': 50,
+                 'iw': 80, 'is': 80, 'if': 80}[kind]
         if not ctx.quick:
-            extra *= 25
+            extra *= 40
         for _ in range(extra):
             L = min(6, max(rng.choice([4, 5, 6]), full[kind] + 1))
             out.append((kind, tuple(rng.randrange(n) for _ in range(L))))
@@ -863,7 +866,7 @@ def run(ctx, rep):
     rep.exhaustive = not ctx.quick
     rep.coverage['exhaustive_note'] = (
         'histories: all sequences up to the per-kind full length (see histories_by_length) plus seeded samples up to '
-        'length 6; order: all singletons/pairs (sampled in quick when > 160) and sampled triples per function (50 quick / 400 thorough)')
+        'length 6; order: all singletons/pairs (sampled in quick when > 130) and sampled triples per function (30 quick / 400 thorough)')
 
 
 # ----------------------------------------------------------------- replay
